@@ -121,8 +121,45 @@ class Fam:
     def __init__(self, prog, goals, goal_texts, kind):
         self.prog, self.goals, self.goal_texts, self.kind = prog, goals, goal_texts, kind
         self.fixed = None
+        self.exhaustive = False
         self.variants = []          # texts
         self.answers = {}           # (variant idx, solver) -> [answers]
+
+
+def pair_family(rng, fixed=None):
+    """structs with >= 2 parameters whose impl headers repeat arguments (Pair<A,A>, Pair<T,T>) next
+    to non-repeating ones; existential goals; ALL impl orders are run (at most 4 impls)."""
+    consts = ["A", "B", "C"]
+    adts = [pg.Adt(c) for c in consts] + [pg.Adt("Pair", 2), pg.Adt("Tri", 3)]
+    A = {c: pg.adt(c) for c in consts}
+    if fixed is not None:
+        heads = fixed
+    else:
+        pool = [pg.adt("Pair", A[x], A[y]) for x in consts for y in consts]
+        pool += [pg.adt("Tri", A[x], A[y], A[z]) for x, y, z in (("A", "A", "A"), ("A", "B", "A"), ("B", "C", "A"), ("B", "B", "C"), ("C", "A", "A"))]
+        heads = []
+        # at least one header with a repeated argument and one without
+        rep = [h for h in pool if len(set(h[2])) < len(h[2])]
+        non = [h for h in pool if len(set(h[2])) == len(h[2])]
+        heads.append(rng.choice(rep))
+        heads.append(rng.choice([h for h in non if h[1] == heads[0][1]] or non))
+        for _ in range(rng.choice([0, 1, 2])):
+            h = rng.choice(pool)
+            if h not in heads:
+                heads.append(h)
+        if rng.random() < 0.3:
+            heads.append(pg.adt("Pair", pg.var(0), pg.var(0)) if rng.random() < 0.5 else pg.adt("Pair", pg.var(0), A["A"]))
+    heads = heads[:2] + heads[2:][-2:]          # at most 4 impls: 24 orders
+    impls = [pg.Impl(len(pg.ty_vars(h)), ("Foo", (h,))) for h in heads]
+    p = pg.Prog(adts, [pg.Trait("Foo")], impls, "pair-repeat")
+    goals = [("exists", (1,), ("atom", ("Foo", (pg.var(1),)))),
+             ("exists", (1, 2), ("atom", ("Foo", (pg.adt("Pair", pg.var(1), pg.var(2)),)))),
+             ("exists", (1,), ("atom", ("Foo", (pg.adt("Pair", pg.var(1), pg.var(1)),)))),
+             ("exists", (1,), ("atom", ("Foo", (pg.adt("Pair", A["A"], pg.var(1)),)))),
+             ("exists", (1, 2, 3), ("atom", ("Foo", (pg.adt("Tri", pg.var(1), pg.var(2), pg.var(3)),))))]
+    f = Fam(p, goals, [pg.goal_text(g) for g in goals], "fragment:pair-repeat")
+    f.exhaustive = True
+    return f
 
 
 def gen_families(ctx):
@@ -145,7 +182,10 @@ def gen_families(ctx):
     f = Fam(p, goals, [pg.goal_text(g) for g in goals], "corpus")
     f.fixed = [q]
     fams.append(f)
-    for _ in range(ctx.n(12, 110)):
+    fams.append(pair_family(rng, [pg.adt("Pair", pg.adt("A"), pg.adt("A")), pg.adt("Pair", pg.adt("B"), pg.adt("C"))]))
+    for _ in range(ctx.n(4, 40)):
+        fams.append(pair_family(rng))
+    for _ in range(ctx.n(10, 110)):
         p = pg.gen_program(rng)
         gg = pg.GoalGen(rng, p)
         goals = [g for g in gg.goals(ctx.n(2, 3), ctx.n(2, 3), ctx.n(5, 6)) if not pg.is_floundering_prone(g)]
@@ -174,7 +214,7 @@ def run(ctx):
     thorough = not ctx.quick
     cases, meta = [], []
     for fi, f in enumerate(fams):
-        vs = (f.fixed or []) + impl_orders(f.prog, rng, thorough, ctx.n(2, 6))
+        vs = (f.fixed or []) + impl_orders(f.prog, rng, thorough or f.exhaustive, ctx.n(2, 6))
         base = text_of(f.prog)
         f.variants = [base] + [text_of(q) for q in vs if text_of(q) != base]
         for vi, t in enumerate(f.variants):
@@ -240,7 +280,7 @@ def run(ctx):
         st = f.prog.symtab()
         for gi, g in enumerate(f.goals):
             q, _ = pg.query_model(g, st)
-            exprs.append((["P%d" % fi], "N.add (if f16_class P%d %s then 1%%N else 0%%N) (if f1_class P%d %s then 2%%N else 0%%N)" % (fi, sx.to_coq(q), fi, sx.to_coq(q))))
+            exprs.append((["P%d" % fi], "N.add (if f16_class P%d %s then 1%%N else 0%%N) (if f1_order_class P%d %s then 2%%N else 0%%N)" % (fi, sx.to_coq(q), fi, sx.to_coq(q))))
             keys.append((fi, gi))
     codes = eg.coq_codes_retry(ctx, "f16", defs, exprs, IMPORTS, ["Props/C13.vo"], shard=max(20, len(exprs) // 16 + 1))
     in_f1 = {}
@@ -248,10 +288,13 @@ def run(ctx):
         in_class[k] = (c % 2 == 1)
         in_f1[k] = (c >= 2)
     n_class_pairs = 0
+    n_f1_pairs = 0
     for fi, f in enumerate(fams):
         for gi in range(len(f.goal_texts)):
             if in_class.get((fi, gi)):
                 n_class_pairs += len(f.variants) - 1
+            elif in_f1.get((fi, gi)):
+                n_f1_pairs += len(f.variants) - 1
 
     known_hits = 0
     f1_hits = 0
@@ -308,6 +351,7 @@ def run(ctx):
                                      "outcomes": dict(stats), "differences": len(diffs), "differences_in_known_class": known_hits, "differences_in_F1_class": f1_hits, "differences_in_F7q_class": f7q_hits,
                                      "all_impl_orders_for_small_programs": thorough, "exhaustive_5_impl_programs": FULL5[0]}
     ctx.cov["known_class_share"] = round(n_class_pairs / total_slg, 4)
+    ctx.cov["known_class_share_f1_order"] = round(n_f1_pairs / total_slg, 4)
     ctx.cov["known_class_note"] = "share of SLG comparisons whose (program, goal) is in f16_class (whether or not the answers differ); %d of them differed" % known_hits
     ctx.cov["inconclusive"] = stats["not-comparable(limits)"]
 
